@@ -213,8 +213,20 @@ pub fn observe(cache: &Cache, opts: &ObsOpts, out: &mut Vec<(ObsClass, String)>)
         if i >= obs.entries.len() {
             break;
         }
-        let s = lru_mem::entry_size(k, v);
+        // a (mutated) cache can pair a key and a value whose sizes do not add up within usize:
+        // the real function then panics on overflow in this build; that is a finding, not a crash
+        let s = match std::panic::catch_unwind(std::panic::AssertUnwindSafe(|| lru_mem::entry_size(k, v))) {
+            Ok(s) => s,
+            Err(_) => {
+                out.push((ObsClass::AcctEntry, format!("entry {} (from LRU, key {}): entry_size(k, v) is not representable (key heap {}, value heap {})", i, k.id.0, k.heap, v.heap)));
+                obs.broken = true;
+                usize::MAX
+            }
+        };
         obs.entries[i].size = s;
+    }
+    if obs.broken {
+        return obs;
     }
     for (i, e) in obs.entries.iter().enumerate() {
         if n == obs.entries.len() && e.recorded != e.size {
